@@ -332,6 +332,7 @@ def main():
         if t["pi"] % 10 == 0:
             ck.sample(dict(sql=t["sql"], rendered=t["rendered"][:300]))
     results = smt.solve_all(queries, tq, workers=14, order=["z3new", "cvc5"], progress=200)
+    results = smt.replayable_models(queries, results, tq, workers=14, order=["z3new", "cvc5"])
     ck.count(results)
     tj_by_path = {(n,): tj for n, tj in tjs.items()}
     n_w = replayed = 0
